@@ -92,10 +92,17 @@ claim("C10", "proof", T1 + " (dictionaries as maps; quantified representation in
       "index/bit of a remaining member, and give a new member a fresh index >= the old counter (no reuse, no sharing). Bounded (T2): every history of <= 2 (thorough 3) "
       "operations over duplicate/case-variant labels, bitmask<->taxa round trips, renderings, lookups, copies.",
       "the member list is modelled by its length at T1; label lookups, textual renderings and copies are bounded only", "DESIGN.md section 5 C10")
-claim("C11", "exploration", T2,
-      "Bounded: every history of <= 2 (thorough 3) container operations on TreeList / CharacterMatrix / DataSet / TreeArray over foreign namespaces with overlapping, disjoint "
-      "and case-variant labels: closure by object identity, label<->taxon functional and injective, nothing dropped.",
-      "bounded stand-in only for this property in this build", "DESIGN.md section 5 C11")
+claim("C11", "proof", T1 + " (dictionaries as maps, loops over dictionaries and over key snapshots, reference lists for the nodes a tree iterates over); " + T2,
+      "Proved (T1, closure clause): CharacterMatrix.new_sequence / __setitem__ refuse a taxon outside the namespace and keep every sequence keyed by a member; "
+      "CharacterMatrix.update_taxon_namespace / reconstruct_taxon_namespace / migrate_taxon_namespace establish that (also for replacements named by the caller's memo); "
+      "Tree.update_taxon_namespace / reconstruct_taxon_namespace / migrate_taxon_namespace leave every node on no taxon or a member of the tree's namespace; "
+      "TreeList._import_tree_to_taxon_namespace / append / insert: the tree ends up referring to the list's namespace object and closed over it, for both import strategies "
+      "and whatever **kwargs carry. Bounded (T2, deciding for the rest): every history of <= 2 (thorough 3) container operations on TreeList / CharacterMatrix / DataSet / "
+      "TreeArray: label<->taxon functional and injective, nothing dropped or duplicated, sources untouched, documented refusals.",
+      "ASSUMED contracts: TaxonNamespace.require_taxon / new_taxon / get_taxon return a member (or None) and remove none (label look-ups are bounded: C10/C11 drivers); add_taxon is C10's "
+      "proved contract restated over the accession dictionary; `for nd in tree` visits the ghost list g_nodes (every node once: C15, bounded-exhaustive there); "
+      "list-wide closure of the other trees of a TreeList, label clauses, DataSet and TreeArray are bounded only",
+      "DESIGN.md section 5 C11, section 9")
 claim("C12", "exploration", T2,
       "Bounded: every copy route x shapes <= 4 (thorough 5) x decorations: canonical-dump equality, heap separation by walking __dict__/containers, mutation battery both ways, "
       "bound annotations follow the copy.",
